@@ -31,7 +31,12 @@ Theorem C23_outcomes : forall now o sel,
   end.
 Proof. exact run_forget_outcomes. Qed.
 
-Theorem C23_ids_only : forall now o sel, o_ids o = true -> run_forget now o sel = Ok (map s_id sel).
+Theorem C23_ids_bad : forall now o sel fail,
+  o_ids o = true -> o_bad_id o = true ->
+  run_forget now o sel = EOther /\ x_deleted (execute o fail (run_forget now o sel)) = [].
+Proof. exact ids_bad. Qed.
+
+Theorem C23_ids_only : forall now o sel, o_ids o = true -> o_bad_id o = false -> run_forget now o sel = Ok (map s_id sel).
 Proof. exact ids_only. Qed.
 
 Theorem C23_dry_run_no_remove : forall o r, o_dry o = true -> deleted o r = [].
@@ -61,6 +66,7 @@ Print Assumptions C23_failed_removal_reported.
 Print Assumptions C23_no_group_emptied.
 Print Assumptions C23_empty_policy_guard.
 Print Assumptions C23_outcomes.
+Print Assumptions C23_ids_bad.
 Print Assumptions C23_ids_only.
 Print Assumptions C23_dry_run_no_remove.
 Print Assumptions C23_deleted_eq_reported.
